@@ -143,12 +143,13 @@ def do_states(case, out):
             v, pl = (int(parts[2]), parts[3]) if parts[0].startswith("B") else (int(parts[1]), parts[2])
             states.append((k, v, "HP " + dopt_common.hp_case(cells, [int(x) for x in pl.split()], frozen, ntoks)))
         except ValueError:
-            break
+            # an op segment that cannot be read is an ERROR of the replayed run (reported by replay), not the end of the run
+            states.append((k, None, "UNREADABLE op segment: " + s[:200]))
     return states
 
 
 def run(ctx):
-    proof_ok, proof = common.proof_status(ctx, "C09")
+    proof_ok, proof = common.proof_status_all(ctx, "C09", ["gaps2_C09"])
     harness = common.build_harness("hpwl")
     driver = common.build_driver()
     lines = common.corpus("C09", ("PO ", "HP ", "IN "))
@@ -242,6 +243,8 @@ def run(ctx):
                 "detailed_placer_value_stream": {"runs": dres["runs"], "not_legalizable": dres["noleg"], "ops": dres["ops"], "op_kinds": dres["op_kinds"],
                                                  "runs_where_the_placement_changed": dres["nontrivial"], "states_judged": do_judged,
                                                  "states_where_value_differs_from_scratch": len(dres["value_fail"]),
+                                                 "runs_not_judged_crash": len(dres["crash"]), "ops_that_threw": len(dres["throw_fail"]),
+                                                 "not_judged_note": "a DO run that crashed or an op that threw has no value() to judge here; both are reported as violations by C05/C02 (same cached run)",
                                                  "what": "DetailedPlacer (harness/dopt.cpp) built on a legalized random circuit with nets and driven by 1-8 "
                                                          "ops: runSwaps/runInserts/runShifts/runReordering (maxNbCells >= 2 included)/runShiftsOnCells/"
                                                          "runReorderingOnCells/bestSwap/bestInsert/bestSwapUpdate with arbitrary arguments; after "
@@ -262,12 +265,13 @@ def run(ctx):
                 "samples": [po[len(po) // 2], lines[len(po) + 1], lines[-1]],
                 "model_vs_impl_differences": len(mism) + len(seq_mism), "impl_outputs_violating_statement": ofail_total,
                 "clauses": {"pin offsets = DEF transforms": "proved, all orientations/sizes/offsets",
-                            "hpwl = bbox sum": "proved (coordinates within int)",
-                            "incremental value exact after any update history": "proved for the model built from any net list",
-                            "builder (fixed-pin folding, dropped nets, CSR transpose)": "modelled and compared exactly on every case; from-scratch oracle on every case; "
-                                                                                      "not proved in Coq (partial)"}})
-    return ctx.finish(LEVEL, cov, ["the folding of fixed pins by x/yTopology is modelled and validated per case, not proved",
-                                   "subsets are duplicate-free (the code asserts it)"])
+                            "hpwl = bbox sum": "proved over Z under `bounded` (pin positions within int); the int arithmetic of x+offset, maxX-minX in the C++ is not in the theorem",
+                            "incremental value exact after any update history": "proved over Z for the model built from any net list (no range hypothesis: int overflow of newValue-oldValue / extents is outside the theorem, see C07 hpwl_dom)",
+                            "builder (fixed-pin folding, dropped nets)": "folding proved exact (c09_subset_folding_exact, c09_subset_value_exact, c09_models_add_up_to_hpwl); compared exactly on every case; from-scratch oracle on every case",
+                            "cell->net CSR (counting sort of finalize)": "specified directly by cell_net_ids, tied by comparison only",
+                            "what detailed placement optimises": "theorems for IncrNetModel only; that DetailedPlacer calls updateCellPos for every move is tied (DO stream), not proved"}})
+    return ctx.finish(LEVEL, cov, ["all theorems are over unbounded Z; `bounded` constrains the Z-computed pin positions only: extents and x+offset must also fit in int for the C++ to be defined (C07's hpwl_dom)",
+                                   "subsets are duplicate-free (the code asserts it); DO crashes and throw_fail are not judged by C09"])
 
 
 def replay(ctx, path):
@@ -278,9 +282,14 @@ def replay(ctx, path):
     if case.startswith("DO "):
         out, _, _ = common.run_both([common.build_harness("dopt"), "run"], None, [case])
         states = do_states(case, out[0])
-        model, _, _ = common.run_both([driver], None, [h for _, _, h in states])
         print("case :", case)
         bad = 0 if states else 1
+        for k, v, h in states:
+            if v is None:
+                bad = 1
+                print("after op %d: %s   <-- NOT JUDGED (error)" % (k, h))
+        states = [st for st in states if st[1] is not None]
+        model, _, _ = common.run_both([driver], None, [h for _, _, h in states])
         for (k, v, h), m in zip(states, model):
             diff = m.strip() != str(v)
             bad |= diff
@@ -302,4 +311,8 @@ def replay(ctx, path):
     print("model:", model[0])
     why = oracle(case, impl[0])
     print("oracle:", why)
-    return 1 if why or impl[0].split(" # ")[0].strip() != model[0].split(" | ")[0].strip() and case.startswith("PO") else (1 if why else 0)
+    # same comparison as run(): PO compares the code part of the model line, HP / IN the whole model line
+    mm = model[0].split(" | ")[0] if case.startswith("PO") else model[0]
+    differ = impl[0].split(" # ")[0].strip() != mm.strip()
+    print("model/implementation differ:", differ)
+    return 1 if (why or differ) else 0
